@@ -22,6 +22,9 @@ func runC10(r *engine.Run) {
 	r.Rule("AGREE-domain", "the hash pre-images of the node kinds are domain separated: each kind's CalcHash starts its pre-image with a constant tag that differs between kinds; without it a value node whose bytes are a branch's child hashes has the branch's hash, so a proof may present a branch as a value")
 	r.Rule("AGREE-bind", "navigated-by is a subset of committed-to: what verifyProof reads from a node's children to decide where to descend (their Weight()) must be part of what that node kind's CalcHash appends to its pre-image per child; a value node's pre-image contains its weight and value")
 	r.Rule("ORDER-hashfresh", "in the Serialize methods of the hashed node kinds every read of a cached hash (the receiver's hash field, a child's Hash()) is reached only on paths where the receiver's dirty flag tested false or CalcHash() was called on the receiver: proofs and exported paths (which serialise nodes directly, possibly after an update and before the next Root()/Commit) never carry a stale hash")
+	r.Rule("DOM-proofappend", "in getBlockProof the serialisation of the current node is appended to the proof before every descent and before every successful termination: the proof contains every node of the walked path")
+	r.Rule("AGREE-endian", "see C09: one byte order for all fixed-width fields (prover, verifier and hash agree on the weights they read)")
+	r.Rule("AGREE-persist", "every field a Serialize method stores into a PersistNode* struct is read by DeserializeNode and vice versa")
 	r.NotDec = append(r.NotDec, "absence of other forgeries (a statement over all byte strings)", "that honest proofs verify for every content (value-level)")
 	f := r.Fn("ORDER-recompute", pkgWMPT, "", "verifyProof")
 	if f == nil {
@@ -33,6 +36,9 @@ func runC10(r *engine.Run) {
 	agreeLimits(r, "AGREE-limits")
 	agreeDomain(r)
 	orderHashFresh(r, "ORDER-hashfresh")
+	domProofAppend(r, "DOM-proofappend")
+	agreeEndian(r, "AGREE-endian")
+	agreePersist(r, "AGREE-persist")
 }
 
 func orderRecompute(r *engine.Run, f *ssa.Function) {
